@@ -389,6 +389,7 @@ func genLookup(t *rapid.T) *LookupCase {
 	c := &LookupCase{SPE: rapid.SampledFrom([]uint64{1, 4, 8, 32, 3, 6, 12}).Draw(t, "spe")}
 	k := rapid.IntRange(0, 6).Draw(t, "activated")
 	last := uint64(0)
+	hugeTail := rapid.IntRange(0, 3).Draw(t, "huge_tail") == 0
 	for i := 0; i < 6; i++ {
 		if i < k {
 			step := rapid.SampledFrom([]uint64{0, 0, 1, 1, 2, 7, 1 << 20}).Draw(t, "step")
@@ -396,6 +397,14 @@ func genLookup(t *rapid.T) *LookupCase {
 			c.Epochs[i] = last
 		} else {
 			c.Epochs[i] = far
+			if hugeTail {
+				// scheduled, but unreachably far and NOT the FAR_FUTURE_EPOCH sentinel: the start slot of such an epoch wraps
+				if c.SPE == 1 {
+					c.Epochs[i] = far - 20 + uint64(i)
+				} else {
+					c.Epochs[i] = (^uint64(0))/c.SPE + 3 + uint64(i)
+				}
+			}
 		}
 	}
 	// all versions distinct
